@@ -71,7 +71,8 @@ Tip(c)  == c[Len(c)]
 InitCommit == Commit(0, 0, 0, 0, 0, {}, {}, Cap \div 2, Cap \div 2, InitRate)
 
 InitDisk == [lc |-> InitCommit, rc |-> InitCommit, diff |-> NoCommit, diffUpd |-> <<>>,
-             ua |-> <<>>, uaSet |-> FALSE, rul |-> <<>>, lwr |-> FALSE, revlog |-> <<>>]
+             ua |-> <<>>, uaSet |-> FALSE, rul |-> <<>>, lwr |-> FALSE, revlog |-> <<>>,
+             fwd |-> <<>>]      \* forwarding packages: one per revoked remote height
 
 Init ==
   /\ L = [p \in Party |-> <<>>] /\ R = [p \in Party |-> <<>>]
@@ -228,6 +229,16 @@ RecvFee(q) ==
 (* sign / receive commit / revoke / receive revoke *)
 
 \* state after SignNextCommitment on (Lp, Rp, ...) -- pure, reused by Reestablish
+\* position (package height, 0-based index) of a peer add in p's forwarding packages, as the link
+\* derives the SourceRef it hands to SettleHTLC/FailHTLC; {} if no package holds it
+AddRefs(fwd, id) ==
+  UNION { {<<fwd[k].h, i - 1>> : i \in {j \in 1..Len(fwd[k].adds) : fwd[k].adds[j] = id}} : k \in 1..Len(fwd) }
+\* CommitDiff.AddAcks applied by AppendRemoteCommitChain: every settle/fail of ours that this
+\* signature commits for the first time acks the add it answers in its forwarding package
+AckFwd(fwd, L2, h) ==
+  LET refs == UNION {AddRefs(fwd, e.hi) : e \in {x \in Elems(L2) : IsRes(x) /\ x.rR = h}} IN
+  [k \in 1..Len(fwd) |-> [fwd[k] EXCEPT !.ack = @ \cup {r[2] : r \in {x \in refs : x[1] = fwd[k].h}}]]
+
 SignResult(p, Lp, Rp, LCp, RCp, LidxP, LhtlcP) ==
   LET ackR == CTail(LCp).ri
       ackRh == CTail(LCp).rh
@@ -237,7 +248,7 @@ SignResult(p, Lp, Rp, LCp, RCp, LidxP, LhtlcP) ==
                   Tip(RCp).ob + v.dOur, Tip(RCp).tb + v.dTheir, v.fee)
       L2 == SetHeights(Lp, LidxP, "R", h)
       R2 == SetHeights(Rp, ackR, "R", h)
-  IN [L |-> L2, R |-> R2, c |-> c, upd |-> DiffUpdates(L2, h),
+  IN [L |-> L2, R |-> R2, c |-> c, upd |-> DiffUpdates(L2, h), fwd |-> AckFwd(disk[p].fwd, L2, h),
       msg |-> [k |-> "sig", h |-> h, li |-> LidxP, ri |-> ackR, c |-> c]]
 
 Sign(p) ==
@@ -247,7 +258,7 @@ Sign(p) ==
      /\ L' = [L EXCEPT ![p] = s.L]
      /\ R' = [R EXCEPT ![p] = s.R]
      /\ RC' = [RC EXCEPT ![p] = Append(@, s.c)]
-     /\ disk' = [disk EXCEPT ![p].diff = s.c, ![p].diffUpd = s.upd, ![p].lwr = FALSE]
+     /\ disk' = [disk EXCEPT ![p].diff = s.c, ![p].diffUpd = s.upd, ![p].lwr = FALSE, ![p].fwd = s.fwd]
      /\ net' = [net EXCEPT ![p] = Append(@, s.msg)]
   /\ UNCHANGED <<Lidx, Lhtlc, Ridx, Rhtlc, Lmod, Rmod, LC, phase, nadds, ndisc, released, nfees, bad, opener>>
 
@@ -327,12 +338,19 @@ RecvRev(p) ==
               lt == CTail(LC[p]).h
               newRC == RC[p][2]
               lpu == SeqFilter(L[p], LAMBDA e : ~IsAdd(e) /\ e.li < newRC.li /\ e.li >= CTail(LC[p]).li)
+              \* the forwarding package of this revocation (ReceiveRevocation): peer adds and peer
+              \* settles/fails that become locked in on both chains exactly now
+              fadds == SeqFilter(R[p], LAMBDA e : IsAdd(e) /\ e.aR > 0 /\ e.aL > 0 /\ rt = e.aR /\ lt >= e.aL)
+              fsfs  == SeqFilter(R[p], LAMBDA e : IsRes(e) /\ e.rR > 0 /\ e.rL > 0 /\ rt = e.rR /\ lt >= e.rL)
+              pkg == [h |-> rt, adds |-> [i \in 1..Len(fadds) |-> fadds[i].hi],
+                      sfs |-> [i \in 1..Len(fsfs) |-> <<fsfs[i].t, fsfs[i].hi>>], ack |-> {}]
               c1 == Compact(L[p], R[p], lt, rt)       \* our log vs theirs
               c2 == Compact(c1[2], c1[1], lt, rt)     \* their log vs ours
           IN
           /\ RC' = [RC EXCEPT ![p] = <<newRC>>]
           /\ disk' = [disk EXCEPT ![p].rc = newRC, ![p].diff = NoCommit, ![p].diffUpd = <<>>,
                           ![p].revlog = Append(@, disk[p].rc),
+                          ![p].fwd = Append(@, pkg),
                           ![p].ua = SeqFilter(@, LAMBDA e : e.li >= newRC.ri),
                           ![p].rul = IF F6Quirk /\ ~disk[p].uaSet THEN @ ELSE lpu]
           /\ L' = [L EXCEPT ![p] = c2[2]]
@@ -471,7 +489,7 @@ RecvReest(q) ==
   /\ IF canSign /\ ~(err1 \/ err2)
      THEN /\ L' = [L EXCEPT ![q] = s.L] /\ R' = [R EXCEPT ![q] = s.R]
           /\ RC' = [RC EXCEPT ![q] = Append(@, s.c)]
-          /\ disk' = [disk EXCEPT ![q].diff = s.c, ![q].diffUpd = s.upd, ![q].lwr = FALSE]
+          /\ disk' = [disk EXCEPT ![q].diff = s.c, ![q].diffUpd = s.upd, ![q].lwr = FALSE, ![q].fwd = s.fwd]
      ELSE UNCHANGED <<L, R, RC, disk>>
   /\ IF oweRev /\ ~(err1 \/ err2)
      THEN released' = [released EXCEPT ![q] = @ \cup {localTail - 1}]
@@ -503,6 +521,18 @@ Conservation ==
     /\ \A i \in 1..Len(LC[p]) : LC[p][i].ob >= 0 /\ LC[p][i].tb >= 0
 
 NeverBroadcastRevoked == \A p \in Party : \A h \in released[p] : h < disk[p].lc.h
+
+\* C02 (forwarding packages): every peer add that is locked in on both chains and still unresolved is
+\* recorded in exactly one forwarding package (the switch re-forwards from there after a restart), and an
+\* add is acked there only once our settle/fail of it is covered by a commitment we signed
+FwdPkgsComplete ==
+  \A p \in Party : bad = "none" =>
+    /\ \A i \in 1..Len(R[p]) : LET e == R[p][i] IN
+         (IsAdd(e) /\ LockedIn(p, e)) => Cardinality(AddRefs(disk[p].fwd, e.hi)) = 1
+    /\ \A k \in 1..Len(disk[p].fwd) : \A i \in disk[p].fwd[k].ack :
+         LET id == disk[p].fwd[k].adds[i + 1] IN
+         \/ \E j \in 1..Len(L[p]) : IsRes(L[p][j]) /\ L[p][j].hi = id /\ L[p][j].rR > 0
+         \/ ~HasAdd(R[p], id)      \* already compacted away: resolved on both chains
 
 \* C06: secrets leave in height order, without gaps or repeats
 SecretsInOrder == \A p \in Party : \A h \in released[p] : \A g \in 0..h : g \in released[p]
